@@ -19,8 +19,13 @@ class _FakeSocket:
     def unsubcribe_on_message_received(self, cb):
         self.subs.discard(cb)
 
+    fail_next = None   # exception class the next send raises (what the real send may raise by its contract)
+
     async def send(self, message, retry_policy):
         self.sent.append((asyncio.get_event_loop().time(), message, retry_policy))
+        if self.fail_next is not None:
+            exc, self.fail_next = self.fail_next, None
+            raise exc()
 
     async def reset_connection(self):
         self.resets.append(asyncio.get_event_loop().time())
